@@ -266,7 +266,10 @@ def gen_case(rng, big=False):
         pols.append({"pol": "align", "upd": True, "il": True, "pick": [rng.random(), rng.random()]})
     if rng.random() < 0.15:
         d["warm"] = rng.choice([1, 2, 4, 8, 16, 31, 64, 95])  # read-only views interleaved with the construction (gen_score.build_part)
-    return {"k": "gen", "part": d, "pols": pols, "prereg": rng.random() < 0.15}
+    out = {"k": "gen", "part": d, "pols": pols, "prereg": rng.random() < 0.15}
+    if rng.random() < 0.12:
+        out["hist"] = rng.randrange(0, 64)
+    return out
 
 
 def shape_case(rng, kind):
@@ -495,8 +498,11 @@ def blocks_case(rng, lo, hi, light=True):
         pols.append({"pol": "all", "upd": rng.random() < 0.5, "il": True, "pick": [rng.random(), rng.random()]})
     if rng.random() < 0.1:
         pols.append({"pol": "score", "upd": True, "il": rng.random() < 0.5, "pick": [0, 0]})
-    return {"k": "gen", "part": d, "pols": pols, "prereg": rng.random() < 0.1, "blocks": len(blocks),
-            "visits": visits * (2 if nav else 1)}
+    out = {"k": "gen", "part": d, "pols": pols, "prereg": rng.random() < 0.1, "blocks": len(blocks),
+           "visits": visits * (2 if nav else 1)}
+    if rng.random() < 0.15:
+        out["hist"] = rng.randrange(0, 64)
+    return out
 
 
 def cases(rng, tier):
@@ -552,6 +558,22 @@ def build(desc):
         return sc[0]
     d = desc["part"]
     p = G.build_part(d)
+    if desc.get("hist") is not None and d.get("extras"):
+        # an edit history: one mark is taken off again, the part is unfolded in that state (whatever the unfold functions
+        # memoise is now warm), and the mark is put back.  The finished part is the one described by `d`.
+        cls, st, en, kw = d["extras"][int(desc["hist"]) % len(d["extras"])]
+        found = [o for o in p.iter_all(getattr(S, cls)) if o.start.t == st and (en is None or (o.end is not None and o.end.t == en))
+                 and all(getattr(o, k_, None) == v_ for k_, v_ in kw.items())]
+        if found and cls in ("Repeat", "Ending", "DaCapo", "DalSegno", "Fine", "Segno", "Coda", "ToCoda"):
+            o = found[-1]
+            p.remove(o)
+            for f in (lambda: S.get_paths(p), lambda: S.get_paths(p, all_repeats=True, ignore_leap_info=False),
+                      lambda: S.unfold_part_maximal(p), lambda: S.unfold_part_minimal(p)):
+                try:
+                    guarded(f, 5)
+                except _Timeout:
+                    pass
+            p.add(o, st, en)
     byid = {n.id: n for n in p.iter_all(S.GenericNote, include_subclasses=True)}
     for cls, a, b in d.get("spans", []):
         na, nb = byid.get(a), byid.get(b)
@@ -1670,6 +1692,8 @@ def distribution(descs, results):
             c["block_family_" + info["blocks"]] += 1
         if d.get("part", {}).get("warm"):
             c["warm_builds"] += 1
+        if d.get("hist") is not None:
+            c["edit_histories"] += 1
         if not r.get("requests"):
             c["skipped"] += 1
     return {"counts": dict(c), "segments_per_part": dict(sorted(nseg.items(), key=lambda kv: (isinstance(kv[0], str), str(kv[0]) if isinstance(kv[0], str) else kv[0])))}
